@@ -147,7 +147,58 @@ def apply_op(universe, op):
         return False
 
 
+def build_deep(case, make):
+    """A chain of case['depth'] nodes with a side leaf every case['every'] levels: [spine nodes], [side leaves]."""
+    spine = [make(0)]
+    side = []
+    for i in range(1, case["depth"]):
+        node = make(i)
+        node.parent = spine[-1]
+        if i % case["every"] == 0:
+            leaf = make(100000 + i)
+            leaf.parent = spine[-1]
+            side.append(leaf)
+        spine.append(node)
+    return spine, side
+
+
+def check_deep(case, acc):
+    """Upward-looking attributes on very deep trees (they are computed iteratively, so depth is no excuse);
+    downward-recursive ones (height, descendants, ...) are left out: the interpreter's recursion limit applies to them."""
+    make = nodes.factory(case["cls"])
+    spine, side = build_deep(case, make)
+    labels = forest.Labels(spine + side)
+    picks = [spine[0], spine[1], spine[len(spine) // 2], spine[-2], spine[-1]] + side[:1] + side[-1:]
+    for node in picks:
+        chain = []
+        cur = node
+        while cur is not None:
+            chain.append(cur)
+            cur = cur.parent
+        path = list(reversed(chain))
+        _seq("path", node.path, path, labels)
+        _seq("ancestors", node.ancestors, path[:-1], labels)
+        if node.root is not path[0]:
+            raise Violation("root", "deep tree")
+        if node.depth != len(path) - 1:
+            raise Violation("depth", "deep tree: expected %d got %r" % (len(path) - 1, node.depth))
+        if not refs.same_seq(list(node.iter_path_reverse()), chain):
+            raise Violation("iter_path_reverse", "deep tree")
+        parent = node.parent
+        sibs = [] if parent is None else [c for c in parent.children if c is not node]
+        _seq("siblings", node.siblings, sibs, labels)
+        if node.is_root is not (parent is None):
+            raise Violation("is_root", "deep tree")
+    for a in picks:
+        for b in picks:
+            check_common([a, b], labels)
+    acc.nontrivial(True)
+    acc.tag("deep_tree_cases")
+
+
 def check_case(case, acc):
+    if case["kind"] == "deep":
+        return check_deep(case, acc)
     make = nodes.factory(case["cls"])
     if case["kind"] == "shape":
         tree = forest.build_tree(case["shape"], make, via=case.get("via", "parent"))
@@ -173,7 +224,7 @@ def check_case(case, acc):
 def _enum_cases(max_nodes, index, count):
     k = 0
     for shape in shapes.trees_upto(max_nodes):
-        for cls in ("Node", "SlotLM", "SymlinkNode"):
+        for cls in ("Node", "SlotLM", "SymlinkNode", "EqNode", "FalsyNode", "LenNode", "EqSlotLM"):
             k += 1
             if k % count == index:
                 yield {"kind": "shape", "shape": forest.to_list(shape), "cls": cls, "via": "parent" if k % 2 else "children"}
@@ -203,10 +254,17 @@ def plan(tier, seed):
     examples = 150 if tier == "quick" else 2500
     tasks = [{"engine": "enum", "max_nodes": max_nodes, "index": i, "count": nshards * 2} for i in range(nshards * 2)]
     tasks += [{"engine": "hyp", "examples": examples, "seed": seed * 1000 + i} for i in range(nshards)]
+    tasks += [{"engine": "deep", "depth": d, "cls": c} for d in ((700, 1500) if tier == "quick" else (300, 700, 1500, 3000)) for c in ("Node", "SlotLM", "AnyNode")]
     return tasks
 
 
 def run_task(task, acc):
+    if task["engine"] == "deep":
+        case = {"kind": "deep", "depth": task["depth"], "every": 97, "cls": task["cls"]}
+        exc = acc.evaluate(check_case, case, enumerated=False)
+        if exc is not None:
+            acc.add_violation(case, exc)
+        return
     if task["engine"] == "enum":
         acc.run_enum(check_case, _enum_cases(task["max_nodes"], task["index"], task["count"]))
     else:
